@@ -236,6 +236,7 @@ func checkC08(c *Ctx) {
 	c08NoLockAcrossWait(c, cfns)
 	c08StopBeforeJoin(c)
 	c08GoroutineScope(c)
+	c08ArmsCloseAlike(c)
 	c08Loops(c, cfns)
 	c08SingleCloser(c, cfns)
 	c08TablePair(c)
@@ -1382,5 +1383,123 @@ func c08GoroutineScope(c *Ctx) {
 	}
 	if n == 0 {
 		c.R.Hold("R-goroutine-scope", "goroutines started by functions that scope a context to their own lifetime", "", "no function both defers the cancel of a derived context and starts a goroutine with a context (the scoping functions hand the derived context to what they call)")
+	}
+}
+
+// ---------------------------------------------------------------- R-arms-close-alike
+// A function that opens a connection and then waits in a select for it to become usable gives up in several arms
+// (timeout, the caller's context ended, the transport closed). Whatever one failing arm does to release the half-open
+// connection — calling the transport's close — every failing arm must do: an arm that just returns the error leaves
+// the stream, its reader goroutine and the peer's session behind, unreferenced once the next attempt overwrites the
+// connection record, so not even Close releases them.
+func c08ArmsCloseAlike(c *Ctx) {
+	tr := c.transportIface()
+	if tr == nil {
+		return
+	}
+	closers := map[*ssa.Function]bool{}
+	for _, T := range c.P.Implementers(tr.Underlying().(*types.Interface)) {
+		if cl := c.P.Method(T, c.transportCloseMethod(tr)); cl != nil {
+			closers[cl] = true
+		}
+	}
+	n := 0
+	for _, fn := range c.P.LibFns {
+		if !clientSide(c, fn) {
+			continue
+		}
+		res := fn.Signature.Results()
+		if res.Len() == 0 || ir.TypeStr(res.At(res.Len()-1).Type()) != "error" {
+			continue
+		}
+		pd := flow.NewPostDom(fn)
+		ir.EachInstr(fn, func(_ *ssa.BasicBlock, _ int, in ssa.Instruction) {
+			sel, ok := in.(*ssa.Select)
+			if !ok || !sel.Blocking || sel.Referrers() == nil {
+				return
+			}
+			var idx ssa.Value
+			for _, r := range *sel.Referrers() {
+				if ex, ok := r.(*ssa.Extract); ok && ex.Index == 0 {
+					idx = ex
+				}
+			}
+			if idx == nil {
+				return
+			}
+			// failing exits after the select, by arm
+			type exit struct {
+				ret    *ssa.Return
+				arm    string
+				closes bool
+			}
+			var exits []exit
+			var closeCalls []ssa.Instruction
+			ir.EachInstr(fn, func(_ *ssa.BasicBlock, _ int, x ssa.Instruction) {
+				ci, ok := x.(ssa.CallInstruction)
+				if !ok {
+					return
+				}
+				if _, isDefer := x.(*ssa.Defer); isDefer {
+					return
+				}
+				for _, cal := range ir.Callees(c.G, ci) {
+					if closers[cal] {
+						closeCalls = append(closeCalls, x)
+					}
+				}
+			})
+			ir.EachInstr(fn, func(b *ssa.BasicBlock, _ int, x ssa.Instruction) {
+				ret, ok := x.(*ssa.Return)
+				if !ok || b == fn.Recover || !flow.Reaches(sel, ret) {
+					return
+				}
+				rs := ir.Results(ret)
+				if ir.IsNilConst(rs[len(rs)-1]) {
+					return
+				}
+				arm := ""
+				for _, g := range pd.ControlDepsTransitive(b) {
+					bin, ok := g.If.Cond.(*ssa.BinOp)
+					if !ok || bin.Op != token.EQL || bin.X != idx {
+						continue
+					}
+					if k, ok := ir.ConstInt(bin.Y); ok {
+						if g.Branch {
+							arm = sprintf("arm %d", k)
+						} else if arm == "" {
+							arm = sprintf("after arm %d", k)
+						}
+					}
+				}
+				if arm == "" {
+					return
+				}
+				cl := false
+				for _, cc := range closeCalls {
+					if flow.Dominates(cc, ret) && flow.Reaches(sel, cc) {
+						cl = true
+					}
+				}
+				exits = append(exits, exit{ret, arm, cl})
+			})
+			some := false
+			for _, e := range exits {
+				if e.closes {
+					some = true
+				}
+			}
+			if !some || len(exits) < 2 {
+				return
+			}
+			for _, e := range exits {
+				n++
+				c.R.Check(e.closes, "R-arms-close-alike", sprintf("failing %s of the wait in %s", e.arm, fname(fn)), c.Pos(e.ret.Pos()), "closes the transport like its sibling arms",
+					sprintf("%s gives up waiting in a select; other failing arms close the transport first, this one (%s, returning at %s) does not: the connection it opened stays open and is overwritten by the next attempt, so nothing — not even Close — ever releases it", fname(fn), e.arm, c.Pos(e.ret.Pos())))
+			}
+		})
+	}
+	if n == 0 {
+		c.R.Break("R-arms-close-alike: no select with failing arms that close the transport found on the client side")
 	}
 }
